@@ -15,7 +15,8 @@ import common
 import container as C
 from sx import Sym
 
-RULE = ("(a) seeded valid blocks of nine types: real _write bytes vs model enc (byte-identical), and the real decoder on "
+RULE = ("(2 % of the blocks, 8 % in the thorough tier, sit on the scale axis: 255 ... 65537 frames or 15 ... 257 items) " 
+        "(a) seeded valid blocks of nine types: real _write bytes vs model enc (byte-identical), and the real decoder on "
         "model-encoded bytes; (b) table entries and file headers over boundary field values: TdfEntry._write vs Entry.enc, "
         "TdfEntry._build / Tdf.__enter__ vs Entry.dec / Header.dec, Tdf.new vs newFile, each under four process time zones (UTC, CET/CEST, "
         "Newfoundland -3:30, New Zealand +12: the stored i32 is epoch seconds whatever the zone); (c) the BTS capture (pinned sha-256): "
